@@ -88,6 +88,11 @@ def gen_instance(rng):
             vecs = [qgen.unit(qgen.int_vector(rng, d, cplx)) for _ in range(k)]
         states = _shape_states(vecs, form, cplx)
     probs = qgen.dyadic_probs(rng, k)
+    if k >= 3 and rng.integers(6) == 0:
+        # "any prior": a prior with an exact zero (that state may always be announced, so the optimum is 0)
+        z = int(rng.integers(k))
+        rest = qgen.dyadic_probs(rng, k - 1)
+        probs = rest[:z] + [0.0] + rest[z:]
     uniform = len(set(probs)) == 1
     return {"d": d, "k": k, "cplx": cplx, "form": form, "kind": kind, "states": states, "probs": probs,
             "probs_given": (not uniform) or bool(rng.integers(3) > 0), "family": None, "anti": None}
